@@ -72,9 +72,11 @@ class AsyncHTTPConnection(AsyncConnectionInterface):
                 f"Attempted to send request to {request.url.origin} on connection to {self._origin}"
             )
 
+        connecting = False
         try:
             async with self._request_lock:
                 if self._connection is None:
+                    connecting = True
                     if self._connect_failed:
                         # An earlier request's connection attempt failed or was
                         # cancelled while we were waiting: the pool has already
@@ -102,7 +104,12 @@ class AsyncHTTPConnection(AsyncConnectionInterface):
                             keepalive_expiry=self._keepalive_expiry,
                         )
         except BaseException as exc:
-            self._connect_failed = True
+            if connecting:
+                # Only the request that holds the lock and is establishing the
+                # connection may declare it failed: a request that is cancelled
+                # while merely waiting for the lock must not make the pool
+                # drop a connection that another request is still opening.
+                self._connect_failed = True
             raise exc
 
         return await self._connection.handle_async_request(request)
